@@ -100,6 +100,12 @@ def run_dtier(pid, cfg, tier, seed, out, ev):
             out.errors.append("vacuity guard: no reachable exit in %s (contradictory precondition?)" % r["qualname"])
         elif r["kind"] == "function" and r["exit_paths"] == 0:
             out.errors.append("vacuity guard: %s generated no exit path" % r["qualname"])
+    base_shapes = baseline.get("shapes") or {}
+    cur_shapes = {r["qualname"]: r.get("shape") for r in reports}
+
+    def shape_changed(fn_):
+        return (fn_ is not None and base_shapes.get(fn_) is not None and cur_shapes.get(fn_) is not None
+                and base_shapes[fn_] != cur_shapes[fn_])
     n_obl = n_dis = 0
     per = []
     solver_s = 0.0
@@ -144,6 +150,9 @@ def run_dtier(pid, cfg, tier, seed, out, ev):
                                    "how_to_replay": "./check %s --replay <this file>" % pid}
                         out.violations.append((name, write_replay(pid, name, payload), ""))
                     d["replay"] = hit
+                elif shape_changed(fn):
+                    out.undecided.append("%s: solver gave no answer and the loop structure of %s changed (%s -> %s): undecided"
+                                         % (name, fn, base_shapes.get(fn), cur_shapes.get(fn)))
                 else:
                     out.suspects.append((name, fn, relaxed, brief))
             else:
@@ -181,6 +190,10 @@ def run_dtier(pid, cfg, tier, seed, out, ev):
                 if reproduced:
                     path = write_replay(pid, name, payload)
                     out.violations.append((name, path, ""))
+                elif shape_changed(fn):
+                    out.undecided.append("%s: no longer provable, but the loop structure of %s differs from the one its loop "
+                                         "contracts were written for (%s -> %s): the proof script does not apply, undecided"
+                                         % (name, fn, base_shapes.get(fn), cur_shapes.get(fn)))
                 elif name in base_clauses or not base_clauses:
                     payload["note"] = ("obligation is discharged on the unchanged tree and is now refuted by the solver; "
                                        "no concrete failing input was found natively")
@@ -203,7 +216,7 @@ def run_dtier(pid, cfg, tier, seed, out, ev):
     for b in missing:
         out.undecided.append("%s: not generated on this tree (function out of subset or absent)" % b)
     ev["dtier"] = {
-        "functions_under_contract": [{"function": r["qualname"], "status": r["status"], "paths": r["paths"],
+        "functions_under_contract": [{"function": r["qualname"], "status": r["status"], "paths": r["paths"], "loop_shape": r.get("shape"),
                                       "reason": (r["reason"] or "").split("\n")[0][:300] if r["reason"] else None,
                                       "vcgen_s": r["gen_s"]} for r in reports],
         "obligations": n_obl, "discharged": n_dis, "per_obligation": per, "solver_s": round(solver_s, 2),
@@ -466,5 +479,6 @@ def write_baseline(pid, seed=0):
         json.dump({"property": pid, "discharged": sorted(names),
                    "not_discharged": sorted(p["obligation"] for p in d["per_obligation"] if p["status"] != "discharged"),
                    "paths": {f_["function"]: f_["paths"] for f_ in d["functions_under_contract"]},
+                   "shapes": {f_["function"]: f_.get("loop_shape") for f_ in d["functions_under_contract"]},
                    "sources": d.get("sources", {})}, f, indent=1)
     print("baseline %s: %d discharged clauses, undecided: %s" % (pid, len(names), out.undecided))
